@@ -240,6 +240,12 @@ func (f *Failover) Get(
 			if value != nil && !f.config.FailHard {
 				return value, nil
 			}
+
+			// Serving overly stale value (expired longer than MaxStaleness) if update failed.
+			var errExpired ErrWithExpiredItem
+			if !f.config.FailHard && errors.As(err, &errExpired) {
+				return errExpired.Value(), nil
+			}
 		}
 
 		return keyLock.val, keyLock.err
